@@ -838,6 +838,40 @@ void oracle_c17_cookie(World &w, const History &h)
   }
 }
 
-void oracle_c03_wire(World &, const History &) {}
+// ---------------------------------------------------------------------------
+// C03 (wire part): the frame a virtual server receives decodes, with the
+// harness decoder, to the record the application passed in
+// ---------------------------------------------------------------------------
+void oracle_c03_wire(World &w, const History &)
+{
+  for (auto &t : w.txs) {
+    if (!t.q.ok) continue; // already reported by record_tx as not decodable
+    if (t.q.q.size() != 1) continue;
+    std::string qn = vdns::lower(vdns::name_text(t.q.q[0].labels));
+    // find the request this question belongs to
+    for (auto &r : *w.reqs) {
+      if (r.kind != 10 || norm_name(r.name) != qn) continue;
+      std::string zone = norm_name(r.name.substr(r.name.find('.') + 1));
+      // expected: authority NS zone -> ns1.zone ; additional A ns1.zone (+ OPT when EDNS is on)
+      const vdns::Query::RRSeen *ns = nullptr, *a = nullptr;
+      for (auto &x : t.q.rrs) {
+        if (x.type == vdns::T_NS) ns = &x;
+        if (x.type == vdns::T_A) a = &x;
+      }
+      if (!ns || !a) {
+        w.violate("C03:wire:record-lost", fmt("tx#%d for %s lacks the NS or A record the application put into the request", t.id, r.name.c_str()));
+        continue;
+      }
+      if (vdns::lower(ns->owner) != zone || vdns::lower(ns->rdname) != "ns1." + zone || vdns::lower(a->owner) != "ns1." + zone || ns->ttl != 300)
+        w.violate(std::string("C03:wire:name-decodes-differently:") + (t.tcp ? "tcp" : "udp"),
+                  fmt("tx#%d (%s): server decodes NS owner '%s' target '%s', A owner '%s'; the application passed '%s' -> 'ns1.%s'", t.id, t.tcp ? "tcp" : "udp", ns->owner.c_str(),
+                      ns->rdname.c_str(), a->owner.c_str(), zone.c_str(), zone.c_str()));
+      else
+        w.W(t.tcp ? "c03_wire_tcp_frame_checked" : "c03_wire_udp_frame_checked");
+      size_t uncompressed = 12 + (qn.size() + 1 + 4) + (zone.size() + 1 + 10 + zone.size() + 5) + (zone.size() + 5 + 10 + 4) + (t.q.has_opt ? 11 : 0);
+      if (t.msg.size() < uncompressed) w.W("c03_wire_compression_used");
+    }
+  }
+}
 
 } // namespace exa
